@@ -110,3 +110,35 @@ def cover(g, init=None, max_len=400, edge_filter=None, limit=None, covered=None,
             if limit is not None and len(paths) >= limit:
                 return paths, covered
     return paths, covered
+
+
+def random_walks(g, rnd, count, lo, hi, drop=(), prefer=None):
+    """Random walks through a dumped TLC graph, longer than any covering path: `count` lists of edge indices (with their
+    initial state index) of lo..hi steps. `drop` names state variables that only bound TLC's exploration (a step counter):
+    states that agree in everything else are identified, so a walk continues past the bound -- every step is still an edge
+    of the graph, i.e. a step the specification allows, and what is compared after it is the edge's target state.
+    `prefer(edge)`: edges to favour (a third of the choices)."""
+    import json as _json
+
+    def key(si):
+        st = g.states[si]
+        return _json.dumps({k: v for k, v in st.items() if k not in drop}, sort_keys=True, default=str) if drop else si
+    out_by = {}
+    for si, outs in g.out.items():
+        if outs:
+            out_by.setdefault(key(si), set()).update(outs)
+    out_by = {k: sorted(v) for k, v in out_by.items()}
+    walks = []
+    for _ in range(count):
+        init = rnd.choice(g.init)
+        cur, path = key(init), []
+        for _ in range(rnd.randrange(lo, hi + 1)):
+            outs = out_by.get(cur)
+            if not outs:
+                break
+            pref = [ei for ei in outs if prefer(g.edges[ei])] if prefer else []
+            ei = rnd.choice(pref) if pref and rnd.random() < 0.33 else rnd.choice(outs)
+            path.append(ei)
+            cur = key(g.edges[ei][1])
+        walks.append((init, path))
+    return walks
